@@ -70,7 +70,10 @@ class IntervalTree:
         # Hence, we add the original indices to the intervals themselves.
         indices = np.arange(intervals.shape[0]).reshape(intervals.shape[0], 1)
         indexed_intervals = np.hstack([intervals, indices])
-        self.root = self._build_tree(np.sort(indexed_intervals, axis=0))
+        # Sort the rows (not each column on its own) by their lower bound:
+        self.root = self._build_tree(
+            indexed_intervals[indexed_intervals[:, 0].argsort()]
+        )
 
     def __contains__(self, item):
         if isinstance(item, (tuple, list)):
